@@ -1,5 +1,5 @@
 (* Properties/C04.v — pinned statements for C04 (events and response data composed per wasmd rules). *)
-From Verif Require Import Base OMap Text Proto Bank Exec ExecFacts ExecFacts2 ChkExec.
+From Verif Require Import Base OMap Text Proto Bank Exec ExecFacts ExecFacts2 ChkExec ChkX ExecOracle ExecOracleS ExecOracleH.
 
 (* a successful contract call returns: the entry-point event, the `wasm` event iff attributes were set, each
    custom event renamed `wasm-<type>` with the contract address first — then the events of its sub-messages in
@@ -67,3 +67,27 @@ Example data_override_example :
   | _ => False
   end.
 Proof. vm_compute. split; reflexivity. Qed.
+
+(* ---------- what the correspondence check relies on ---------- *)
+(* The run-time oracle p_c04 (ChkX.v, clauses 5-9: events of the root program first and verbatim, leaf responses exactly, the instantiate
+   response, Ok replies carry the response of the leaf sub-message they answer, no reply => own data) accepts the model's own run of EVERY well-formed scenario, in every case
+   environment: an implementation that behaves exactly like the model is never flagged, and "agrees with the model"
+   implies "satisfies the oracle's reading of C04".
+   Premise [wf_scenario] (ExecOracle.v) is what the generator guarantees (harness/exec_common/src/gen.rs): in every
+   program of every call — sub-messages and reply handlers at every depth — the first action writes the marker
+   "m<node>" and no other action writes or removes the marker of any node; the markers of all the nodes of the
+   scenario are pairwise different.  [model_steps] builds the step records from the model's own run (only the block and
+   the call of each input step are used). *)
+Theorem C04_model_ok ce steps : wf_scenario steps -> c04 ce (model_steps ce steps empty_chain) = Agree.
+Proof. exact (c04_model_ok ce steps). Qed.
+Print Assumptions C04_model_ok.
+
+Example C04_model_ok_applies : wf_scenario ex_scenario /\ c04 ex_ce (model_steps ex_ce ex_scenario empty_chain) = Agree.
+Proof. exact (conj ex_scenario_wf (C04_model_ok ex_ce ex_scenario ex_scenario_wf)). Qed.
+
+(* conversely, an Agree verdict of the check means: the oracle accepted every step of what the IMPLEMENTATION did, and
+   trace, outcome and state agreed with the model at every step *)
+Theorem C04_agree_sound ce steps : c04 ce steps = Agree ->
+  oracle_steps p_c04 steps 0 = None /\ corr ce steps empty_chain 0 = None.
+Proof. exact (check_with_agree_sound p_c04 ce steps). Qed.
+Print Assumptions C04_agree_sound.
